@@ -13,7 +13,7 @@ def run(tier, seed):
     b = c02.build()
     r1 = vlib.tlc_expect_ok("MTLS", "mtls.cfg")
     cases = []
-    reps = 1 if tier == "quick" else 3
+    reps = 1 if tier == "quick" else 8
     for _ in range(reps):
         for p in PROTOS:
             cases.append({"name": "t%d" % len(cases), "kind": "intrude", "proto": p})
